@@ -28,7 +28,9 @@ def modes_for(text):
     cls = re.search(r"^\s*class\s+([A-Z][A-Za-z0-9]*)", text, re.M)
     return [[], ["-i"], ["--hover", "--row=%d" % row], ["--suggest", "--row=%d" % row], ["--llm-nav"], ["--llm-nav", "--all"],
             ["--llm-nav", "--target=%s" % target], ["--llm-define"], ["--llm-class"],
-            ["--extends", "--class=%s" % (cls.group(1) if cls else "Array")], ["--define", "--row=%d" % row], ["--llm-error"]]
+            ["--extends", "--class=%s" % (cls.group(1) if cls else "Array")], ["--define", "--row=%d" % row], ["--llm-error"]] + \
+        [["--extends", "--class=%s" % c] for c in sorted(set(re.findall(r"^\s*class\s+([A-Z][A-Za-z0-9]*)", text, re.M)))[:4]
+         if cls and c != cls.group(1)]
 
 
 def canon(args, out):
@@ -56,15 +58,18 @@ def run(tier, work):
         ql, _ = K.query_lines(gr, K.PLAIN)
         texts.append(("classes", "\n".join(dl + ql) + "\n"))
     # the same class group under two different modules: same class and method names, identical signatures, two frames
-    for gr in graphs[:6 if tier == "quick" else 60]:
-        lines = []
-        for mod in ("Outer", "Inner"):
-            dl, _ = K.render(gr, K.PLAIN, wrap=[mod])
-            lines += dl
-        for mod in ("Outer", "Inner"):
-            ql, _ = K.query_lines(gr, K.PLAIN, prefix=mod + "::")
-            lines += ql
-        texts.append(("classes-two-frames", "\n".join(lines) + "\n"))
+    two = graphs[:6 if tier == "quick" else 60]
+    for gi, gr in enumerate(two):
+        # the same group twice, and two DIFFERENT groups (same class names, other superclasses / modules), under two modules
+        for other in (gr, two[(gi + 1) % len(two)]):
+            lines = []
+            for mod, g2 in (("Outer", gr), ("Inner", other)):
+                dl, _ = K.render(g2, K.PLAIN, wrap=[mod])
+                lines += dl
+            for mod, g2 in (("Outer", gr), ("Inner", other)):
+                ql, _ = K.query_lines(g2, K.PLAIN, prefix=mod + "::")
+                lines += ql
+            texts.append(("classes-two-frames", "\n".join(lines) + "\n"))
     nbb = 3
     nw = 2 if tier == "quick" else 6
     bjobs, wjobs = [], []
